@@ -38,74 +38,126 @@ DRIVER = ".lake/c20alt/C20DriverAlt.lean" if ALT else "drivers/C20.lean"
 
 LEAN_MODULES = ["LenaModel.Props.C20", INSTANCE_REL[:-5].replace("/", ".")]
 LEAN_SOURCES = ["LenaModel/Model/C20.lean", "LenaModel/Lemmas/C20.lean", "LenaModel/Props/C20.lean", INSTANCE_REL, GEN_REL]
+# the theorems that carry the property
 THEOREMS = [
-    # general (for all facts)
+    # clause 2a/2b (negative half), for all facts and all environments: no entry point followed by any sequence of calls
+    # reaches an unresolved name / a missing attribute of a lena module; a rejection is a real failing run
     "Lena.C20.resolver_sound",
     "Lena.C20.resolver_sound_envs",
-    "Lena.C20.exported_envs",
     "Lena.C20.resolver_alarm_is_real",
     "Lena.C20.explore_failed_real",
-    "Lena.C20.resolver_alarm_envs",
-    "Lena.C20.execEvs_step",
-    "Lena.C20.ext_step",
-    "Lena.C20.try_handler_catches",
-    "Lena.C20.raising_skips",
-    "Lena.C20.import_done_noop",
-    "Lena.C20.call_keeps_imported",
-    "Lena.C20.gbind_binds",
-    "Lena.C20.State.get_clearRow",
-    "Lena.C20.import_ok_of_resolvesAll",
-    "Lena.C20.exported_of_resolvesAll",
-    "Lena.C20.load_resolves_iff",
-    "Lena.C20.lookupScope_isSome_iff",
-    "Lena.C20.walk_none_iff",
-    "Lena.C20.attr_resolves_iff",
     "Lena.C20.call_without_import_keeps_state",
+    # clause 1a: advertised names exist, star imports work
+    "Lena.C20.exported_of_resolvesAll",
+    "Lena.C20.exported_envs",
+    # anchor mechanism 2: lena.X is an attribute of lena only after somebody imported it; sys.modules; import closure
     "Lena.C20.module_value_is_imported",
-    "Lena.C20.not_imported_not_bound",
     "Lena.C20.importMod_stable",
     "Lena.C20.sys_modules_grow",
-    "Lena.C20.loaded_after_import",
-    "Lena.C20.State.get_set_same",
-    "Lena.C20.State.get_set_other",
-    "Lena.C20.State.statusOf_setStatus_same",
-    "Lena.C20.State.statusOf_setStatus_other",
     "Lena.C20.importMod_within",
     "Lena.C20.loaded_within_closure",
-    # instance (the current working tree; re-checked by the kernel on every run)
+    # clause 2b (positive half) and anchor mechanism 4, as far as the facts can say it
+    "Lena.C20.exceptions_of_ok",
+    # the partial statements of the clauses kept as `_full` definitions (behaves_same_full,
+    # invalid_arguments_reported_full, no_unbound_local_full)
+    "Lena.C20.behaves_same_partial",
+    "Lena.C20.locals_audited_partial",
+    # instance: the current working tree, every environment (re-checked by the kernel on every run)
     "Lena.C20.current_tree_resolves",
     "Lena.C20.current_tree_safe",
     "Lena.C20.all_exported",
     "Lena.C20.current_closures_ok",
     "Lena.C20.current_loaded_within_closure",
+    "Lena.C20.current_exceptions_ok",
+    "Lena.C20.lena_exceptions_derive",
+    "Lena.C20.current_raises_documented",
+    "Lena.C20.current_locals_audited",
+]
+# definitional unfoldings that pin the transcription, corollaries, glue and lemmas about the state encoding: audited
+# like the others, not counted as obligations of the property
+AUX_THEOREMS = [
+    "Lena.C20.execEvs_step",
+    "Lena.C20.load_resolves_iff",
+    "Lena.C20.lookupScope_isSome_iff",
+    "Lena.C20.walk_none_iff",
+    "Lena.C20.attr_resolves_iff",
+    "Lena.C20.uncaught_is_failure",
+    "Lena.C20.ext_step",
+    "Lena.C20.try_handler_catches",
+    "Lena.C20.raising_skips",
+    "Lena.C20.import_done_noop",
+    "Lena.C20.gbind_binds",
+    "Lena.C20.import_ok_of_resolvesAll",
+    "Lena.C20.not_imported_not_bound",
+    "Lena.C20.resolver_alarm_envs",
+    "Lena.C20.call_keeps_imported",
+    "Lena.C20.loaded_after_import",
+    "Lena.C20.derivesB_sound",
+    "Lena.C20.State.get_set_same",
+    "Lena.C20.State.get_set_other",
+    "Lena.C20.State.statusOf_setStatus_same",
+    "Lena.C20.State.statusOf_setStatus_other",
+    "Lena.C20.State.get_clearRow",
 ]
 TRUSTED = [
     "Lean 4.33.0 kernel; axioms limited to propext, Classical.choice, Quot.sound (audited by #print axioms on every run)",
-    "the translator harness/extract_facts.py (Python ast + CPython's own symtable -> LenaModel/Gen/C20Facts.lean), validated on "
-    "every run against fresh interpreters: predicted sys.modules, every module namespace (names and module/non-module "
-    "kind), the function inventory (qualified name, first line) and the per-function verdicts must equal what the "
-    "interpreter and the bytecode show",
-    "the abstract import/name-resolution semantics of Model/C20.lean (sys.modules, partially initialised modules, "
-    "setattr of a submodule on its package, IMPORT_FROM fall-back, LEGB with builtins), validated likewise",
+    "the translator harness/extract_facts.py (Python ast + CPython's own symtable + compile -> LenaModel/Gen/C20Facts.lean), "
+    "validated on every run against fresh interpreters: predicted sys.modules, every module namespace (names and "
+    "module/non-module kind), the function inventory, per function the set of global names read (must equal the "
+    "bytecode's), node-count coverage against an independent ast.walk, and the per-function verdicts",
+    "the abstract import/name-resolution semantics of Model/C20.lean (sys.modules, partially initialised modules, setattr of "
+    "a submodule on its package, IMPORT_FROM fall-back, LEGB with builtins, try/except of ImportError/NameError/"
+    "AttributeError), validated likewise and on the self-test package harness/c20_zoo.  The general theorems are about this "
+    "interpreter: `Safe` is defined through the same `callFn` the check evaluates, so the adequacy of the semantics for "
+    "Python rests on the correspondence run, not on the theorems",
+    "the bytecode analyser harness/c20_probe.py (analyse / reachable / cell_states / guard_ranges / raised_classes, ~500 "
+    "lines): it IS the oracle of the ~5 900 function cases -- a second static analysis, independent of the translator "
+    "(bytecode and runtime objects instead of ast), with the same abstraction: ordinary locals are invisible, all loads at "
+    "once; it is trusted not to miss what it claims to check",
     "CPython 3.12 (interpreter-version tests are decided for it; Python-2 standard-library modules such as "
-    "future_builtins are never importable); which optional third-party modules are installed is NOT assumed: it is "
-    "the environment parameter the theorems quantify over",
+    "future_builtins are never importable); sys.platform / os.name tests are NOT decided statically: names bound under "
+    "them are assumed bound and verified only on the platform the check runs on; which optional third-party modules are "
+    "installed is not assumed: it is the environment parameter the theorems quantify over",
+    "the allow-list AUDITED_MAYBE_UNBOUND (extract_facts.py): 10 reads of locals that CPython cannot prove bound, each "
+    "looked at by a person, with the reason",
     "JSON line protocol (harness/props/c20.py, drivers/C20.lean)",
 ]
 ASSUMPTIONS = [
-    "a call executes every load of the function body in source order (all code paths at once); imports inside "
-    "conditional blocks are not assumed afterwards",
+    "a call executes every load of the function body in source order (all code paths at once), except that a failure "
+    "inside a `try` whose handler catches it (NameError / AttributeError / ImportError / Exception / bare) runs the "
+    "handler instead; imports inside conditional blocks are not assumed afterwards",
+    "which locals are followed: locals bound only by import statements, locals bound only by `x = name.a.b` (aliases of "
+    "modules), closure cells.  ORDINARY LOCALS ARE NOT FOLLOWED: an UnboundLocalError is reported only through CPython's "
+    "own flag (LOAD_FAST_CHECK: a read it cannot prove bound) unless the read is audited; a lena module stored in an "
+    "attribute, a container or passed as an argument (self._m = lena.flow) becomes opaque for model and oracle alike",
     "module level: names bound on some path only of an if/loop/match whose outcome is not decided statically are assumed "
     "bound (none in the current tree; listed per module in the facts, counted in the evidence); the fresh interpreter "
     "shows whether they exist and the bytecode oracle finds every function that loads one that does not",
-    "names are created at module level by the statements the translator sees: globals()[...] = ... (flow/zip.py, counted "
-    "in the evidence as dynamic), exec/eval and the Python-2 branches are outside the model",
+    "functions called DURING the import of their own module (module-level `x = f()`, decorators, the stub factory in "
+    "lena/output/__init__.py) are not interpreted at that moment (Callable requires a fully imported module): a body that "
+    "reads a global defined later in the file is found only dynamically (the real import fails, the entry case reports it)",
+    "every entry point is `import lena.X` followed by `from lena.X import *` in a region: the star import must work and "
+    "the advertised names must exist, but the state the calls start from is the one after the plain import",
+    "a call that ends with the ImportError of an absent third-party module has ended in the documented way; the loads "
+    "after that import are checked in the environment in which the module is present",
+    "names are created at module level by the statements the translator sees: globals()[computed key] = ... (flow/zip.py) "
+    "can only add opaque bindings and is ignored; exec/eval/__import__/vars()/locals() are noted; module __getattr__ "
+    "(PEP 562), setattr(module, ...), importlib.import_module, sys.modules[...] = ..., module.__dict__[...] are not "
+    "modelled (none in the tree: they would show up as a namespace disagreement); the Python-2 branches are outside",
     "objects that are not lena modules are opaque: attributes of classes and instances are not checked (the statement "
-    "speaks of AttributeError on a lena module); lena.variables.abs / Cm exist and raise the documented "
-    "LenaAttributeError identically in both interpreters: outside the statement",
+    "speaks of AttributeError on a lena module); class-body reads of a name that the class body also assigns are skipped; "
+    "lena.variables.abs / Cm exist and raise the documented LenaAttributeError identically in both interpreters: "
+    "outside the statement",
+    "clause 1b (same behaviour with only the own sub-package imported) and the positive half of clause 2b (invalid "
+    "arguments reported with LenaException subclasses) have NO behaviour model: they are the definitions "
+    "behaves_same_full / invalid_arguments_reported_full in Props/C20.lean, not proved; evidence for 1b is the behaviour "
+    "palette only (its reach is in the evidence: behaviour_function_coverage), so an import-order dependence that is not "
+    "a name failure (`if hasattr(lena, 'output')`, `'lena.output' in sys.modules`) on a path the palette does not reach "
+    "is not detected; for 2b what is proved is about `raise` statements (exceptions_of_ok): builtin exceptions raised by "
+    "Python itself for invalid arguments (TypeError for a wrong call, KeyError of a dict) are observed by the probe and "
+    "NOT judged",
     "closure cells are checked at the end of the statement that creates the inner function (the earliest call); reads "
-    "in comprehensions of the owner itself and Python-2 branches are not checked; globals()[computed key] = ... can "
-    "only add opaque bindings and is ignored (the cautious reading)",
+    "in comprehensions of the owner itself are not checked",
 ]
 RULE = ("translator coverage is asserted on every run (every Name/Attribute/import/function node of the source accounted "
         "for, against an independent ast.walk count; per function the set of global names read must equal the bytecode's); "
@@ -224,7 +276,7 @@ def _translator_coverage(tree="repo"):
 
 
 def _cleanup_alt():
-    for rel in (GEN_REL, INSTANCE_REL):
+    for rel in (GEN_REL, INSTANCE_REL, DRIVER):
         try:
             (LEAN_DIR / rel).unlink()
         except OSError:
@@ -398,15 +450,38 @@ def _gen_cases(ctx):
                 mname, q, line = k.rsplit("|", 2)
                 cases.append({"kind": "func", "tree": "zoo", "entry": pkg, "env": env, "absent": ab, "module": mname,
                               "func": q, "line": int(line)})
+    # what the behaviour cases reach: functions of the tree entered by some exercise (sys.monitoring in the fresh
+    # interpreters and their forked children) -- the rest is the blind area of the dynamic evidence for clause 1b
+    entered = set()
+    for key, pr in _state["behaviour"].items():
+        entered.update(pr.get("entered", []))
+    allf = {}
+    for m in facts["modules"]:
+        if m.get("path"):
+            rel = m["path"][len("lena/"):] if m["path"].startswith("lena/") else m["path"]
+            for f in m["funcs"]:
+                allf[f"{rel}|{f['name']}|{f['line']}"] = f"{m['name']}.{f['name']}"
+    never = sorted(v for k, v in allf.items() if k not in entered)
     notes = getattr(ctx, "notes", [])
+    notes.append({"behaviour_function_coverage": {
+        "functions_of_the_tree": len(allf), "entered_by_some_behaviour_case": len(allf) - len(never),
+        "never_entered": never[:400],
+        "note": "impl_line_coverage of common.py is empty for C20: the real code runs in fresh interpreters "
+                "(sub-processes), this is the measurement made there"}})
+    notes.append({"exhaustive_per_dimension": {
+        "entry points x environments x functions x global loads / attribute chains / raise statements (static clause)": True,
+        "advertised names (__all__) x environments": True,
+        "behaviour of public elements (clause 1b)": "fixed palette of argument tuples and flows (+ seeded sample in "
+                                                    "thorough): a sample, not exhaustive"}})
     notes.append({"self_test_package": {"tree": str(ZOO), "translator": zf["stats"]}})
     notes.append({"environments": [{"env": e, "absent": _absent(e), "tested_in_fresh_interpreters": e not in untestable}
                                    for e in facts["envs"]],
                   "third_party_modules_of_import_time_code": facts["ext"], "never_importable_here": facts["always_absent"]})
     ctx.notes = notes
-    # the scope of the quantifier (sub-packages x advertised names x functions x global loads) is enumerated
-    # completely; the argument tuples of the behaviour cases are a fixed palette (+ a seeded sample in thorough)
-    ctx.exhaustive = True
+    # the static scope of the quantifier (sub-packages x environments x advertised names x functions x global loads)
+    # is enumerated completely, but the behaviour cases (clause 1b) are a fixed palette: not exhaustive as a whole
+    # (per dimension: see the note `exhaustive_per_dimension` in the evidence)
+    ctx.exhaustive = False
     return cases
 
 
@@ -640,35 +715,38 @@ def _oracle(case, res):
         return None
     if kind == "func":
         if res.get("present") and res["problems"]:
-            p = res["problems"][0]
             where = f"{case['module']}, function {case['func']} (line {case['line']})"
-            if p["kind"] == "BuiltinRaise":
-                what = (f"line {p['line']}: raises the builtin {p['name']} although lena.core documents a LenaException "
-                        f"subclass that wraps it (invalid arguments and missing keys are reported with the documented "
-                        f"LenaException subclasses)")
-            elif p["kind"] == "NonLenaRaise":
-                what = f"line {p['line']}: raises {p['name']}, a lena class that does not derive from LenaException"
-            elif p["kind"] == "MaybeUnbound":
-                what = (f"local variable '{p['name']}' may be unbound when it is read (CPython cannot prove it bound and "
-                        f"the read is not among the audited ones): possible UnboundLocalError, a NameError")
-            elif p["kind"] == "NameError" and p.get("after_call_of"):
-                what = (f"global name '{p['name']}' is deleted by a call of {p['after_call_of']} (`global {p['name']}; "
-                        f"del {p['name']}`): not defined when this function is called afterwards")
-            elif p["kind"] == "NameError" and p.get("inner"):
-                what = (f"free variable '{p['name']}' of the inner function {p['inner']} may be unbound when that "
-                        f"function is called (the enclosing function has not certainly bound it by then)")
-            elif p["kind"] == "AttributeError" and p.get("inner"):
-                what = (f"module '{p.get('on')}' has no attribute '{p['name']}' (read through the free variable "
-                        f"'{p.get('root')}' in the inner function {p['inner']})")
-            elif p["kind"] == "NameError" and p.get("unbound_local"):
-                what = (f"local name '{p['name']}' is bound only by an import statement that is not certain to have "
-                        f"run (UnboundLocalError)")
-            elif p["kind"] == "NameError":
-                what = f"global name '{p['name']}' is not defined in the module nor in builtins"
-            elif p["kind"] == "AttributeError":
-                what = f"module '{p.get('on')}' has no attribute '{p['name']}' (reading {p.get('root')}. ... .{p['name']})"
-            else:
-                what = f"{p['kind']}: {p.get('name')} {p.get('msg', '')}"
+            whats = []
+            for p in res["problems"][:4]:
+                if p["kind"] == "BuiltinRaise":
+                    what = (f"line {p['line']}: raises the builtin {p['name']} although lena.core documents a LenaException "
+                            f"subclass that wraps it (invalid arguments and missing keys are reported with the documented "
+                            f"LenaException subclasses)")
+                elif p["kind"] == "NonLenaRaise":
+                    what = f"line {p['line']}: raises {p['name']}, a lena class that does not derive from LenaException"
+                elif p["kind"] == "MaybeUnbound":
+                    what = (f"local variable '{p['name']}' may be unbound when it is read (CPython cannot prove it bound and "
+                            f"the read is not among the audited ones): possible UnboundLocalError, a NameError")
+                elif p["kind"] == "NameError" and p.get("after_call_of"):
+                    what = (f"global name '{p['name']}' is deleted by a call of {p['after_call_of']} (`global {p['name']}; "
+                            f"del {p['name']}`): not defined when this function is called afterwards")
+                elif p["kind"] == "NameError" and p.get("inner"):
+                    what = (f"free variable '{p['name']}' of the inner function {p['inner']} may be unbound when that "
+                            f"function is called (the enclosing function has not certainly bound it by then)")
+                elif p["kind"] == "AttributeError" and p.get("inner"):
+                    what = (f"module '{p.get('on')}' has no attribute '{p['name']}' (read through the free variable "
+                            f"'{p.get('root')}' in the inner function {p['inner']})")
+                elif p["kind"] == "NameError" and p.get("unbound_local"):
+                    what = (f"local name '{p['name']}' is bound only by an import statement that is not certain to have "
+                            f"run (UnboundLocalError)")
+                elif p["kind"] == "NameError":
+                    what = f"global name '{p['name']}' is not defined in the module nor in builtins"
+                elif p["kind"] == "AttributeError":
+                    what = f"module '{p.get('on')}' has no attribute '{p['name']}' (reading {p.get('root')}. ... .{p['name']})"
+                else:
+                    what = f"{p['kind']}: {p.get('name')} {p.get('msg', '')}"
+                whats.append(what)
+            what = "; ".join(whats)
             how = "with the whole framework imported" if case["entry"] == "all" else f"with only {case['entry']} imported"
             return f"{how}: {where}: {what}"
         return None
@@ -747,6 +825,8 @@ def signature(case, failure):
         if "_fatal)" in (failure or ""):
             return f"behaviour-fatal:{case['pkg']}"
         return f"behaviour:{case['pkg']}:{case['name']}"
+    if case["kind"] == "entry" and "derive from LenaException" in (failure or ""):
+        return "exceptions:" + failure.split(" [environment")[0]
     if case["kind"] == "entry" and "__all__" in (failure or ""):
         return "entry:" + failure.split(" [environment")[0]   # seen from two entry points / environments: one finding
     return f"{case['kind']}:{case.get('entry', '')}"
@@ -763,7 +843,11 @@ LEVEL_TEXT = ("Lean 4 theorems about an interpreter for Python's import machiner
               "translator (ast + symtable); the translator and the semantics are validated on every run against fresh "
               "interpreters (sys.modules, all module namespaces, every function's bytecode), and every public element is "
               "exercised with only its own sub-package imported and with the whole framework imported.")
-LEVEL_NOTE = ("Trusted: Lean kernel (+ propext, Classical.choice, Quot.sound), the translator and the abstract import "
+LEVEL_NOTE = ("The general theorems are about the interpreter of Model/C20.lean; that this interpreter is adequate for "
+              "CPython is validated by the correspondence run (and the self-test package), not proved.  No theorem covers "
+              "clause 1b (behaviour) or which inputs are 'invalid arguments' (clause 2b): kept as _full definitions, "
+              "tested by a fixed behaviour palette only.  "
+              "Trusted: Lean kernel (+ propext, Classical.choice, Quot.sound), the translator and the abstract import "
               "semantics as validated by the exhaustive correspondence run, CPython 3.12 + installed distributions. "
               "Outside the model: names created dynamically (globals()[...] in flow/zip.py), attributes of non-module "
               "objects, Python-2 branches.")
